@@ -125,6 +125,7 @@ def main(tier, replay, t0):
             if len(samples) < 3 and cls & {"dquote", "backslash", "CR"}:
                 samples.append({"classes": sorted(cls), "head": c.wgsl[:200]})
     n += faulty_formatter_runs(viol, tier)
+    n += sequence_and_environment_runs(viol, tier)
     inconclusive = []
     need = {"dquote", "backslash", "brace", "CRLF", "control", "NUL", "non-ascii-bmp", "non-bmp"}
     if not need <= classes:
@@ -156,7 +157,17 @@ def faulty_formatter_runs(viol, tier):
     camp = probes.campaign("const", tier)
     cases = [c for c in camp.cases.values() if not c.frontend_rejected][:24]
     n = 0
-    for stub in ("partial_then_kill", "partial_then_exit1", "garbage_exit3", "empty_ok"):
+    # a few sources with statement and block ends followed by a space inside one line
+    class X:
+        pass
+    for k, body in enumerate(["for (var i = 0; i < 4; i = i + 1) { if (i > 2) { break; } else { continue; } }",
+                              "var a = 1; var b = 2; { a = b; } { b = a; } // x; y } z { w"]):
+        x = X()
+        x.id = "semi%d" % k
+        x.wgsl = "// a; b } c { d ; e\n@compute @workgroup_size(1)\nfn main() { %s }\n" % body
+        cases.append(x)
+    for stub in ("partial_then_kill", "partial_then_exit1", "garbage_exit3", "empty_ok", "absent",
+                 "exit1_immediately", "exit0_without_reading", "midchar_then_exit1"):
         jobs = [{"id": c.id, "source": c.wgsl, "opt": {"fmt": True}, "inv": True} for c in cases]
         p, res = core.run_drive(binp, jobs, "c16/fault-" + stub, timeout=600,
                                 extra_env={"PATH": os.path.join(core.VERIF, "stubs", stub),
@@ -170,13 +181,87 @@ def faulty_formatter_runs(viol, tier):
             inv = r.get("inv", {})
             src = [k for k in inv.get("consts", []) if k["name"] == "SOURCE"]
             want_len = len(c.wgsl.encode("utf-8"))
-            if "parse_error" in inv or not src or src[0].get("str_len") != want_len:
+            if "parse_error" in inv or not src or src[0].get("str_len") != want_len or \
+                    src[0].get("str_sha") != core.hash_hex(c.wgsl.encode("utf-8")):
                 viol.append(Violation("source-lost-under-formatter-fault", stub,
                                       "with the formatter on and the formatter %s, the returned "
                                       "text has no SOURCE equal to the input (%s)" % (
                                           stub, "does not parse" if "parse_error" in inv else
-                                          "length %s vs %d" % (src[0].get("str_len") if src
-                                                               else None, want_len)),
+                                          "length %s vs %d, content %s" % (
+                                              src[0].get("str_len") if src else None, want_len,
+                                              "differs" if src and src[0].get("str_len") ==
+                                              want_len else "-")),
                                       {"case_id": c.id, "wgsl": c.wgsl, "options": {"fmt": True},
                                        "formatter": stub}))
+    return n
+
+
+def sequence_and_environment_runs(viol, tier):
+    """(1) the caller reuses its buffer: two calls whose sources have the same address and
+    length but another text - the second module must be the second source's; (2) the
+    environment of a build script (CARGO_MANIFEST_DIR, OUT_DIR ...) and an absolute include
+    path inside that directory: SOURCE must still be include_str! of exactly the given path"""
+    import os
+    binp = core.build_drive()
+    camp = probes.campaign("const", tier)
+    cases = [c for c in camp.cases.values() if not c.frontend_rejected][:30 if tier == "quick"
+                                                                       else 300]
+    n = 0
+    jobs = []
+    for k, c in enumerate(cases):
+        a = "// variant A %04d\n" % k + c.wgsl
+        b = "// variant B %04d\n" % ((k * 7 + 1) % 10000) + c.wgsl
+        opt = [{}, {"bv": True}, {"fmt": True}][k % 3] if k % 3 != 2 else {}
+        j = {"id": c.id, "source": a, "opt": opt, "inplace": b}
+        if k % 2:
+            j["include_path"] = "shaders/%s.wgsl" % c.id
+        jobs.append(j)
+    p, res = core.run_drive(binp, jobs, "c16/inplace", timeout=600)
+    if p.returncode != 0 or len(res) != len(jobs):
+        raise core.Inconclusive("in-place sequence run failed: %s" % p.stderr[-800:])
+    for r, j in zip(sorted(res, key=lambda r: r["seq"]), jobs):
+        ip = r.get("inplace") or {}
+        if "second" not in ip:
+            continue
+        n += 1
+        if ip["second"] != ip["fresh"]:
+            viol.append(Violation("stale-module-for-reused-buffer",
+                                  "include" if j.get("include_path") else "embedded",
+                                  "two calls with sources of equal address and length but "
+                                  "different text: the second call did not return the second "
+                                  "source's module", {"first": j["source"], "second": j["inplace"],
+                                                      "options": j["opt"],
+                                                      "include_path": j.get("include_path")}))
+    # build-script environment
+    mdir = os.path.join(core.WORK, "c16", "crate dir")
+    os.makedirs(mdir, exist_ok=True)
+    env = {"CARGO_MANIFEST_DIR": mdir, "OUT_DIR": os.path.join(mdir, "target", "out"),
+           "CARGO_PKG_NAME": "demo", "CARGO": "/bin/false", "PWD": mdir, "HOME": mdir}
+    paths = [os.path.join(mdir, "shaders", "a.wgsl"), mdir + "//shaders/./b.wgsl",
+             os.path.join(mdir, "target", "out", "c.wgsl"), mdir, mdir + "/",
+             "/other/place/d.wgsl", mdir + "x/e.wgsl", "shaders/f.wgsl", "./g.wgsl",
+             os.path.join(os.path.dirname(mdir), "h.wgsl")]
+    jobs = []
+    for k, pth in enumerate(paths):
+        c = cases[k % len(cases)]
+        jobs.append({"id": "env%d" % k, "source": c.wgsl, "opt": {"fmt": bool(k % 2)},
+                     "include_path": pth, "inv": True})
+    p, res = core.run_drive(binp, jobs, "c16/env", timeout=600, cwd=mdir, extra_env=env)
+    if p.returncode != 0 or len(res) != len(jobs):
+        raise core.Inconclusive("environment run failed: %s" % p.stderr[-800:])
+    by = {r["id"]: r for r in res}
+    for j in jobs:
+        r = by[j["id"]]
+        if r.get("result") != "ok":
+            continue
+        n += 1
+        src = [k for k in r.get("inv", {}).get("consts", []) if k["name"] == "SOURCE"]
+        if not src or src[0].get("include_str") != j["include_path"]:
+            viol.append(Violation("include-path", "build-script-environment",
+                                  "with CARGO_MANIFEST_DIR=%r: SOURCE is %s, expected "
+                                  "include_str! of exactly %r" % (
+                                      mdir, src[0].get("include_str") if src else None,
+                                      j["include_path"]),
+                                  {"wgsl": j["source"], "include_path": j["include_path"],
+                                   "options": j["opt"], "env": env}))
     return n
